@@ -1,17 +1,20 @@
 import GrafeoModel.Model.JoinOrder
 /-!
-C09, the join-order search (`Model/JoinOrder.lean`): whatever the statistics and the cost model say
-(`lt` is an arbitrary comparison), for every number of relations and every join graph, the tree that
-`DPccp::optimize` returns
+C09, the join-order search (`Model/JoinOrder.lean`, repaired behaviour): whatever the statistics and
+the cost model say (`lt` is an arbitrary comparison), for every number of relations and every join
+graph, the tree that `DPccp::optimize` returns
 
 * contains every relation exactly once (`optimize_leaves_perm`),
-* carries every condition between two different known relations exactly once
-  (`optimize_conds_perm`), each at a join whose two sides hold its two relations
-  (`optimize_covered`),
+* carries every condition between two different known relations exactly once, verbatim
+  (`optimize_conds_perm`),
+* has every condition at a join one of whose inputs holds the relation of its left expression and
+  the other that of its right expression (`optimize_covered`), so that the repaired `plan_join`, which
+  resolves a condition in either orientation, applies every condition (`optimize_all_applied`).
 
-and what it does NOT guarantee, with witnesses: a condition over one relation is dropped
-(`self_condition_dropped`), and a condition can sit at a join whose LEFT input holds the relation of
-its RIGHT expression (`condition_flipped`) — the planner's hash join then skips it.
+`reorder_sound`: what `reorder_joins` puts in place of a left-deep plan is the plan itself or such a
+tree with ALL the plan's conditions. Regression theorems (`Old.*`): before the repair a condition
+over one relation was dropped by `reorder_joins`, and a condition could sit at a join with its sides
+the other way round, where the strict `plan_join` skipped it.
 -/
 open Grafeo.JoinOrder
 namespace Grafeo.C09Join
@@ -224,32 +227,51 @@ theorem optimize_leaves_perm {g : Graph} {lt : Tree → Tree → Bool} {t : Tree
   rw [hg.mem, has_full]
   simp
 
+def known (n : Nat) (e : Edge) : Bool := decide (e.frm < n) && decide (e.to < n) && e.frm != e.to
+
 /-- **(2a)** every condition between two different relations of the graph occurs exactly once in the
-tree (as a multiset); the others do not occur -/
+tree (as a multiset, verbatim); no other condition occurs -/
 theorem optimize_conds_perm {g : Graph} {lt : Tree → Tree → Bool} {t : Tree} (h : optimize g lt = some t) :
-    (condsOf t).Perm (g.edges.filter (fun e => decide (e.frm < g.n) && decide (e.to < g.n) && e.frm != e.to)) := by
+    (condsOf t).Perm (g.edges.filter (known g.n)) := by
   have hg := (optimize_good h).conds
-  have : inside (full g.n) = (fun e => decide (e.frm < g.n) && decide (e.to < g.n) && e.frm != e.to) := by
+  have : inside (full g.n) = known g.n := by
     funext e
-    simp only [inside, has_full]
+    simp only [inside, has_full, known]
   rwa [this] at hg
 
-/-- **(2b)** every condition sits at a join one of whose sides holds its one relation and the other
-side its other relation: its columns exist where it is evaluated -/
+/-- **(2b)** every condition sits at a join one of whose inputs holds the relation of its left
+expression and the other input the relation of its right expression: no condition is evaluated
+before its columns exist -/
 theorem optimize_covered {g : Graph} {lt : Tree → Tree → Bool} {t : Tree} (h : optimize g lt = some t) :
     covered t = true := (optimize_good h).cov
 
-/-- **(2c)** on a graph from the builder whose conditions each speak about two different relations,
+theorem applied_of_covered : ∀ t : Tree, covered t = true → appliedConds t = condsOf t
+  | .leaf _, _ => rfl
+  | .join l r cs, h => by
+    simp only [covered, Bool.and_eq_true] at h
+    obtain ⟨⟨hc, hl⟩, hr⟩ := h
+    simp only [appliedConds, condsOf, applied_of_covered l hl, applied_of_covered r hr]
+    rw [List.filter_eq_self.mpr (fun e he => List.all_eq_true.mp hc e he)]
+
+/-- **(2c)** therefore the repaired `plan_join` applies every condition of the tree, each exactly
+where it sits -/
+theorem optimize_all_applied {g : Graph} {lt : Tree → Tree → Bool} {t : Tree} (h : optimize g lt = some t) :
+    appliedConds t = condsOf t := applied_of_covered t (optimize_covered h)
+
+/-- **(2d)** on a graph from the builder whose conditions each speak about two different relations,
 nothing is dropped and nothing is duplicated -/
 theorem optimize_conds_all {n : Nat} {es : List Edge} {lt : Tree → Tree → Bool} {t : Tree}
-    (hself : ∀ e ∈ es, e.frm ≠ e.to) (h : optimize (build n es) lt = some t) :
+    (hself : hasSelf es = false) (h : optimize (build n es) lt = some t) :
     (condsOf t).Perm (es.filter (fun e => decide (e.frm < n) && decide (e.to < n))) := by
   have := optimize_conds_perm h
   simp only [build, List.filter_filter] at this
   refine this.trans (List.Perm.of_eq ?_)
   apply List.filter_congr
   intro e he
-  have := hself e he
+  have hs : (e.frm == e.to) = false := by
+    simp only [hasSelf, List.any_eq_false] at hself
+    simpa using hself e he
+  simp only [known]
   cases a : decide (e.frm < n) <;> cases b : decide (e.to < n) <;> simp_all
 
 /-- the 16-relation cap: no search, the caller keeps the plan -/
@@ -267,44 +289,71 @@ theorem optimize_stats_irrelevant {g : Graph} {lt lt' : Tree → Tree → Bool} 
   ⟨(optimize_leaves_perm h).trans (optimize_leaves_perm h').symm,
    (optimize_conds_perm h).trans (optimize_conds_perm h').symm⟩
 
-/-! ## what is not guaranteed -/
+theorem hasSelf_extract (n : Nat) (es : List Edge) (h : hasSelf es = false) : hasSelf (extractConds n es) = false := by
+  simp only [hasSelf, List.any_eq_false, extractConds, List.mem_flatMap, List.mem_filter] at h ⊢
+  rintro e ⟨_, _, he, _⟩
+  exact h e he
+
+/-- **`reorder_joins`** on a left-deep plan, any statistics: the answer is the plan itself, or a tree
+with every relation once and every condition that `collect_join_tree` hands over (`extractConds`)
+once, verbatim, each where the repaired `plan_join` applies it -/
+theorem reorder_sound (n : Nat) (es : List Edge) (lt : Tree → Tree → Bool) :
+    reorder n es lt = leftDeep n es ∨
+      ((leaves (reorder n es lt)).Perm (List.range n)
+        ∧ (condsOf (reorder n es lt)).Perm
+            ((extractConds n es).filter (fun e => decide (e.frm < n) && decide (e.to < n)))
+        ∧ appliedConds (reorder n es lt) = condsOf (reorder n es lt)) := by
+  unfold reorder
+  split
+  · exact Or.inl rfl
+  · rename_i hc
+    have hs : hasSelf es = false := by
+      cases h : hasSelf es
+      · rfl
+      · exact absurd (Or.inr h) hc
+    split
+    · rename_i t ht
+      exact Or.inr ⟨optimize_leaves_perm ht, optimize_conds_all (hasSelf_extract n es hs) ht, optimize_all_applied ht⟩
+    · exact Or.inl rfl
+
+/-! ## regression: the behaviour before the repair -/
 
 def eSelf : Edge := { id := 2, frm := 0, to := 0 }
-def g3 : Graph := build 3 [{ id := 0, frm := 0, to := 1 }, { id := 1, frm := 1, to := 2 }, eSelf]
+def es3 : List Edge := [{ id := 0, frm := 0, to := 1 }, { id := 1, frm := 1, to := 2 }, eSelf]
 
-/-- witness: a condition over a single relation (`r0.x = r0.y` written as a join condition) is in no
-join of the answer, although the graph holds it (`jo valid 3 0:1,1:2,0:0 …` → `missing:2`) -/
-theorem self_condition_dropped :
-    eSelf ∈ g3.edges ∧
-    ∃ t, optimize g3 (fun _ _ => false) = some t ∧ eSelf ∉ condsOf t := by
-  refine ⟨by decide, _, rfl, by decide⟩
+/-- before the repair: a condition over a single relation (`r0.x = r0.y` written as a join condition)
+was in no join of what `reorder_joins` answered (`jo opt 3 0:1,1:2,0:0 …`) -/
+theorem Old.self_condition_dropped :
+    eSelf ∈ es3 ∧ eSelf ∉ condsOf (Old.reorder 3 es3 (fun _ _ => false)) := by
+  refine ⟨by decide, by decide⟩
+
+/-- after the repair: a join tree with such a condition is left as written, for every statistics -/
+theorem self_condition_not_reordered (lt : Tree → Tree → Bool) : reorder 3 es3 lt = leftDeep 3 es3 := rfl
 
 def e01 : Edge := { id := 0, frm := 0, to := 1 }
 
-/-- witness: two relations, one condition `r0.c = r1.c`. The subsets are visited in descending order,
-`{r1}` first, so the first candidate is `Join(r1, r0)` with the condition as written; its mirror
-image never costs strictly less (the cost model is symmetric), so it stays: the condition's left
-expression is over the RIGHT input. `plan_join` skips such a condition: a cross product
-(`jo rows 2 0:1 50,60 0.1.2,1.2.3` → 2 rows without reordering, 9 with it). -/
-theorem condition_flipped (lt : Tree → Tree → Bool)
+/-- two relations, one condition `r0.c = r1.c`. The subsets are visited in descending order, `{r1}`
+first, so the first candidate is `Join(r1, r0)` with the condition as written; its mirror image never
+costs strictly less (the cost model is symmetric), so it stays: the condition's left expression is
+over the RIGHT input. Before the repair `plan_join` skipped such a condition — a cross product
+(`jo rows 2 0:1 50,60 0.1.2,1.2.3` gave 2 rows without reordering, 9 with it); the repaired one
+applies it. -/
+theorem Old.condition_flipped (lt : Tree → Tree → Bool)
     (hsym : lt (.join (.leaf 0) (.leaf 1) [e01]) (.join (.leaf 1) (.leaf 0) [e01]) = false) :
     optimize (build 2 [e01]) lt = some (.join (.leaf 1) (.leaf 0) [e01])
       ∧ flippedConds (.join (.leaf 1) (.leaf 0) [e01]) = [e01]
-      ∧ appliedConds (.join (.leaf 1) (.leaf 0) [e01]) = [] := by
-  refine ⟨?_, by decide, by decide⟩
+      ∧ Old.appliedConds (.join (.leaf 1) (.leaf 0) [e01]) = []
+      ∧ appliedConds (.join (.leaf 1) (.leaf 0) [e01]) = [e01] := by
+  refine ⟨?_, by decide, by decide, by decide⟩
   have e : optimize (build 2 [e01]) lt
       = if lt (.join (.leaf 0) (.leaf 1) [e01]) (.join (.leaf 1) (.leaf 0) [e01]) = true
         then some (.join (.leaf 0) (.leaf 1) [e01]) else some (.join (.leaf 1) (.leaf 0) [e01]) := by
     cases hh : lt (.join (.leaf 0) (.leaf 1) [e01]) (.join (.leaf 1) (.leaf 0) [e01]) <;>
-      simp [optimize, maxReordered, build, enumerate, submasks, step, initMemo, JoinOrder.insert, JoinOrder.get,
-        diff, full, single, isConnected, areConnected, getConditions, members, has, crosses, iter, grow,
-        adjacent, e01, List.range, List.range.loop, Nat.testBit] <;> (simp only [e01] at hh; simp [hh, JoinOrder.get])
+      simp [optimize, maxReordered, build, enumerate, submasks, step, initMemo, JoinOrder.insert,
+        JoinOrder.get, diff, full, single, isConnected, areConnected, getConditions, members, has, crosses, iter,
+        grow, adjacent, e01, List.range, List.range.loop, Nat.testBit] <;>
+      (simp only [e01] at hh; simp [hh, JoinOrder.get])
   rw [e, hsym]
   simp
-
-/-- the oriented alternative exists: nothing forces the flip (nonvacuity of "oriented") -/
-theorem oriented_possible :
-    flippedConds (.join (.leaf 0) (.leaf 1) [e01]) = [] ∧ appliedConds (.join (.leaf 0) (.leaf 1) [e01]) = [e01] := by
-  decide
 
 end Grafeo.C09Join
